@@ -15,6 +15,7 @@ import (
 	"net/http"
 	"os"
 	"reflect"
+	"runtime"
 	"sort"
 	"strconv"
 	"strings"
@@ -76,11 +77,68 @@ const (
 )
 
 // markHandler is a request handler that marks the request and sends it with the client it was handed.
-type markHandler struct{ mark string }
+type markHandler struct {
+	mark string
+	sc   *scenario // nil: the scenario being run (handlers made by the default factory)
+}
 
 func (h *markHandler) Handle(ctx context.Context, c *http.Client, req *http.Request) (*http.Response, error) {
 	req.Header.Add(hVia, h.mark)
-	return c.Do(req.WithContext(ctx))
+	resp, err := c.Do(req.WithContext(ctx))
+	sc := h.sc
+	if sc == nil {
+		sc = curScenario.Load()
+	}
+	if err == nil && resp != nil && req.Method == http.MethodGet && sc != nil {
+		// the client is done with a stream when it closes the body: an event the harness can wait for
+		resp.Body = &watchBody{ReadCloser: resp.Body, sc: sc}
+	}
+	return resp, err
+}
+
+var curScenario atomic.Pointer[scenario]
+
+type watchBody struct {
+	io.ReadCloser
+	sc   *scenario
+	once sync.Once
+}
+
+func (b *watchBody) Close() error {
+	err := b.ReadCloser.Close()
+	b.once.Do(func() {
+		b.sc.mu.Lock()
+		b.sc.bodyCloses++
+		close(b.sc.changed)
+		b.sc.changed = make(chan struct{})
+		b.sc.mu.Unlock()
+	})
+	return err
+}
+
+// gateRoots is a roots provider that can be made slow: when armed, the next GetRoots reports that it was entered
+// (and whether it runs on the goroutine that reads the listening stream) and waits until it is released.
+type gateRoots struct {
+	inner mcp.RootsProvider
+	gate  atomic.Pointer[rootsGate]
+}
+
+type rootsGate struct {
+	entered chan bool // true: called from the stream's reader (handleGetSSEEvents is on the stack)
+	release chan struct{}
+}
+
+func (g *gateRoots) GetRoots() []mcp.Root {
+	if gt := g.gate.Swap(nil); gt != nil {
+		buf := make([]byte, 1<<14)
+		buf = buf[:runtime.Stack(buf, false)]
+		gt.entered <- strings.Contains(string(buf), "handleGetSSEEvents")
+		select {
+		case <-gt.release:
+		case <-time.After(2 * ceiling):
+		}
+	}
+	return g.inner.GetRoots()
 }
 
 // markRT is the transport of the custom http.Client.
@@ -125,9 +183,14 @@ type scenario struct {
 	cl  *mcp.Client
 	tr  *http.Transport
 
-	mu      sync.Mutex
-	calls   []beforeCall
-	changed chan struct{}
+	mu         sync.Mutex
+	calls      []beforeCall
+	changed    chan struct{}
+	bodyCloses int // listening-stream bodies the client has closed
+
+	roots    *gateRoots
+	initDone bool      // a handshake has succeeded
+	opts     []optSpec // options runs: the client is built from this list instead of cfg
 
 	histLen int
 
@@ -259,6 +322,7 @@ func (sc *scenario) open(sid string) error {
 	legacy := sc.client == "sse"
 	sc.srv = newRefServer(legacy, sid)
 	sc.changed = make(chan struct{})
+	curScenario.Store(sc)
 	good := streamablePath
 	if legacy {
 		good = ssePath
@@ -268,16 +332,22 @@ func (sc *scenario) open(sid string) error {
 	if !legacy {
 		opts = append(opts, mcp.WithClientGetSSEEnabled(true))
 	}
-	if sc.cfg.Headers {
+	if sc.opts != nil {
+		var extra []mcp.ClientOption
+		if extra, url = sc.optionList(url, good); true {
+			opts = append(opts, extra...)
+		}
+	}
+	if sc.cfg.Headers && sc.opts == nil {
 		opts = append(opts, mcp.WithHTTPHeaders(staticHeaders.Clone()))
 	}
-	if sc.cfg.Before {
+	if sc.cfg.Before && sc.opts == nil {
 		opts = append(opts, mcp.WithHTTPBeforeRequest(sc.before))
 	}
-	if sc.cfg.Handler {
-		opts = append(opts, mcp.WithHTTPReqHandler(&markHandler{"custom"}))
+	if sc.cfg.Handler && sc.opts == nil {
+		opts = append(opts, mcp.WithHTTPReqHandler(&markHandler{mark: "custom"}))
 	}
-	if sc.cfg.Path {
+	if sc.cfg.Path && sc.opts == nil {
 		url = sc.srv.ts.URL + wrongPath + "?" + urlQuery
 		opts = append(opts, mcp.WithClientPath(good))
 	}
@@ -298,7 +368,8 @@ func (sc *scenario) open(sid string) error {
 	if err != nil {
 		return err
 	}
-	sc.cl.SetRootsProvider(mcp.NewDefaultRootsProvider(mcp.Root{URI: "file:///verif", Name: "verif"}))
+	sc.roots = &gateRoots{inner: mcp.NewDefaultRootsProvider(mcp.Root{URI: "file:///verif", Name: "verif"})}
+	sc.cl.SetRootsProvider(sc.roots)
 	return nil
 }
 
@@ -322,6 +393,7 @@ func tagged(tag string) (context.Context, context.CancelFunc) {
 // opWindow: the records [From, To) arrived while operation Op (with context tag Tag) ran.
 type opWindow struct {
 	Succeeded bool // a handshake operation that completed
+	Reopened  bool // the listening stream was (re)opened with this operation's context
 	Op, Tag   string
 	InitTag   string // tag of the successful handshake preceding (or being) this operation
 	From, To  int
@@ -360,6 +432,7 @@ func (sc *scenario) do(op string, i int, nextID *int) opWindow {
 		_, w.Err = sc.cl.Initialize(ctx, &mcp.InitializeRequest{})
 		if w.Err == nil {
 			w.Succeeded = true
+			sc.initDone = true
 		}
 		if w.Err == nil && sc.client == "streamable" && !sc.noStream {
 			// the listening stream is opened by a goroutine: wait until the GET arrived (any path) — or, when the
@@ -384,9 +457,7 @@ func (sc *scenario) do(op string, i int, nextID *int) opWindow {
 	case "notify":
 		w.Err = sc.cl.SendRootsListChangedNotification(ctx)
 	case "roots", "rootsUnknown":
-		select {
-		case <-sc.srv.streamUp:
-		default:
+		if !sc.srv.alive() {
 			w.Err = errors.New("no listening stream to push on")
 			w.To = len(sc.srv.snapshot())
 			return w
@@ -401,9 +472,106 @@ func (sc *scenario) do(op string, i int, nextID *int) opWindow {
 		sc.waitTargetOrRecIf(sc.fail != nil && sc.fail.Kind == "answer", func(r rec) bool { return r.Kind == "answer" && r.ID == id })
 	case "terminate":
 		w.Err = sc.cl.TerminateSession(ctx)
+	case "rootsSlowEnd", "rootsSlowReset":
+		// the server sends roots/list and ENDS the listening stream while the roots provider is still working
+		if sc.client != "streamable" || !sc.srv.alive() {
+			w.Err = errors.New("no listening stream to push on")
+			break
+		}
+		gt, id, onReader, ok := sc.pushSlowRoots(nextID)
+		if !ok {
+			w.Err = errors.New("the roots provider was not asked")
+			break
+		}
+		sc.mu.Lock()
+		closes := sc.bodyCloses
+		sc.mu.Unlock()
+		sc.srv.endStream(op == "rootsSlowReset")
+		if !onReader {
+			// the answer is being built off the stream's reader: let the reader see the end of the stream first (it
+			// closes the body when it is done), and give its exit path a moment — this only sharpens the case, it is
+			// no precondition of any verdict
+			sc.waitBodyClose(closes + 1)
+			time.Sleep(2 * time.Millisecond)
+		}
+		close(gt.release)
+		sc.srv.waitRec(func(r rec) bool { return r.Kind == "answer" && r.ID == id }, ceiling)
+	case "reopen":
+		if sc.client != "streamable" {
+			break
+		}
+		sc.reopen(ctx, &w)
+	case "rootsSlowReplace":
+		// the server sends roots/list; the listening stream is replaced while the roots provider is still working
+		if sc.client != "streamable" {
+			break
+		}
+		if !sc.srv.alive() {
+			sc.reopen(ctx, &w)
+			break
+		}
+		gt, id, _, ok := sc.pushSlowRoots(nextID)
+		if !ok {
+			w.Err = errors.New("the roots provider was not asked")
+			break
+		}
+		sc.reopen(ctx, &w)
+		close(gt.release)
+		sc.srv.waitRec(func(r rec) bool { return r.Kind == "answer" && r.ID == id }, ceiling)
 	}
 	w.To = len(sc.srv.snapshot())
 	return w
+}
+
+// pushSlowRoots arms the roots provider, pushes a roots/list request and waits until the provider has been entered.
+func (sc *scenario) pushSlowRoots(nextID *int) (gt *rootsGate, id string, onReader, ok bool) {
+	gt = &rootsGate{entered: make(chan bool, 1), release: make(chan struct{})}
+	sc.roots.gate.Store(gt)
+	*nextID++
+	id = fmt.Sprintf("%d", *nextID)
+	sc.srv.push <- fmt.Sprintf(`{"jsonrpc":"2.0","id":%s,"method":"roots/list"}`, id)
+	select {
+	case onReader = <-gt.entered:
+		return gt, id, onReader, true
+	case <-time.After(ceiling):
+		sc.roots.gate.Store(nil)
+		close(gt.release)
+		return gt, id, false, false
+	}
+}
+
+// reopen opens a new listening stream with the operation's context (hook VerifReopenGetStream) and waits until the
+// server has it in service (a GET is only sent when the client has a session id).
+func (sc *scenario) reopen(ctx context.Context, w *opWindow) {
+	ups := sc.srv.upCount()
+	expectGet := sc.srv.isIssued()
+	if !mcp.VerifReopenGetStream(ctx, sc.cl) {
+		w.Err = errors.New("client has no listening stream")
+		return
+	}
+	w.Reopened = sc.initDone
+	if expectGet {
+		if !sc.srv.waitUps(ups+1, ceiling) {
+			w.Err = errors.New("the reopened listening stream did not come up")
+		}
+	}
+}
+
+func (sc *scenario) waitBodyClose(n int) bool {
+	deadline := time.After(2 * time.Second)
+	for {
+		sc.mu.Lock()
+		ok, ch := sc.bodyCloses >= n, sc.changed
+		sc.mu.Unlock()
+		if ok {
+			return true
+		}
+		select {
+		case <-ch:
+		case <-deadline:
+			return false
+		}
+	}
 }
 
 func (sc *scenario) waitTargetOrRecIf(target bool, pred func(rec) bool) {
@@ -567,8 +735,8 @@ func runHistory(c *hk.Ctx, client string, cf cfg, retry bool, hist []string, sid
 	initTag := ""
 	for i, op := range hist {
 		w := sc.do(op, i, &nextID)
-		if w.Succeeded {
-			initTag = w.Tag // the handshake whose context the background requests inherit
+		if w.Succeeded || w.Reopened {
+			initTag = w.Tag // the handshake (or reopened stream) whose context the background requests inherit
 		}
 		w.InitTag = initTag
 		wins = append(wins, w)
@@ -749,7 +917,7 @@ var fullHistory = []string{"initialize", "tools", "toolsRetry", "notify", "roots
 func run(c *hk.Ctx) {
 	// every handler that is not explicitly configured comes from the (replaceable) default factory: mark it, so
 	// that "default handler" and "no handler at all" can be told apart on the wire
-	mcp.NewHTTPReqHandler = func(string, ...mcp.HTTPReqHandlerOption) mcp.HTTPReqHandler { return &markHandler{"factory"} }
+	mcp.NewHTTPReqHandler = func(string, ...mcp.HTTPReqHandlerOption) mcp.HTTPReqHandler { return &markHandler{mark: "factory"} }
 	sidN := 0
 	sid := func() string { sidN++; return fmt.Sprintf("verif-sid-%d-%d", c.Seed, sidN) }
 	clients := []string{"streamable", "sse"}
